@@ -146,3 +146,33 @@ fn c03_srat_rintc_affinity_is_self_describing() {
     check_table("SRAT", &b);
     walk_tl8("SRAT", &b, 48, &[7, 1]);
 }
+
+// ---- SLIT (C12 / C01 / C18)
+fn slit_cell(b: &[u8], n: usize, i: usize, j: usize) -> u8 { b[44 + i + n * j] }
+#[test]
+fn c12_slit_diagonal_and_mirrored_assignments() {
+    use acpi_tables::slit::*;
+    for n in 1..=4usize {
+        let mut t = SLIT::new(*b"FOOBAR", *b"DECAFCOF", 1, n as u32);
+        let mut model = vec![10u8; n * n];
+        check_table("SLIT(new)", &ser(&t));
+        let ops: Vec<(usize, usize, u8)> = (0..n).flat_map(|a| (0..n).map(move |b| (a, b, (20 + 7 * a + 3 * b) as u8))).collect();
+        for (a, b, v) in ops.iter().chain(ops.iter().rev()) {
+            t.set_distance(*a, *b, *v);
+            model[a + n * b] = *v;
+            model[b + n * a] = *v;
+            let img = ser(&t);
+            check_table(&format!("SLIT n={} after set_distance({},{},{})", n, a, b, v), &img);
+            assert_eq!(&img[44..], &model[..], "SLIT n={} matrix after set_distance({},{},{})", n, a, b, v);
+            assert_eq!(u64::from_le_bytes(img[36..44].try_into().unwrap()), n as u64);
+        }
+    }
+}
+#[test]
+fn c18_slit_oversize_locality_count_refused() {
+    use acpi_tables::slit::*;
+    let r = refuses(|| ser(&SLIT::new(*b"FOOBAR", *b"DECAFCOF", 1, 65536)));
+    if let Err(b) = r {
+        panic!("SLIT::new(65536 localities) returned a {}-byte image declaring {} localities and Length {}", b.len(), u64::from_le_bytes(b[36..44].try_into().unwrap()), le32_at(&b, 4));
+    }
+}
